@@ -247,6 +247,46 @@ func runC15(c *Ctx) {
 		c.ob("C15-R6", jitPkg+".SpecializationCache.GetSpecialization#valid-only", fn.Pos(), hit == nil && len(valids) > 0, "an invalidated specialisation can be returned (stale code served after deoptimisation/invalidation)", c.blockPath(path)...)
 	}
 
+	// R7 recompilation does not resurrect an invalidated unit
+	c.rule("C15-R7", "MPT: JITCompiler.recompileRoute writes into JITCompiler.units (or into a cached unit's fields) only on the found-edge of a lookup of the route in units made under the same lock: a route invalidated while its tier-up compile was running is not re-inserted with bytecode of the old definition")
+	if fn := c.mustFn("C15-R7", jitPkg, "JITCompiler.recompileRoute"); fn != nil {
+		var oks []ssa.Value
+		eachInstr(fn, func(_ *ssa.BasicBlock, _ int, ins ssa.Instruction) {
+			if lk, ok := ins.(*ssa.Lookup); ok && lk.CommaOk && loadedFromField(lk.X, "JITCompiler", "units") {
+				oks = append(oks, extractOf(lk, 1)...)
+			}
+		})
+		n := 0
+		eachInstr(fn, func(_ *ssa.BasicBlock, _ int, ins ssa.Instruction) {
+			isW := false
+			if mu, ok := ins.(*ssa.MapUpdate); ok && loadedFromField(mu.Map, "JITCompiler", "units") {
+				isW = true
+			}
+			if st, ok := ins.(*ssa.Store); ok && !isFreshAlloc(st.Addr) {
+				if nt, _, ok := fieldOf(st.Addr); ok && nt != nil && nt.Obj().Name() == "CompilationUnit" {
+					isW = true
+				}
+			}
+			if !isW {
+				return
+			}
+			n++
+			q := &pathQuery{fn: fn, target: func(x ssa.Instruction) bool { return x == ins }, cutEdge: func(b *ssa.BasicBlock, si int) bool {
+				for _, o := range oks {
+					if known, val := boolOnEdge(b, si, o); known && val {
+						return true
+					}
+				}
+				return false
+			}}
+			hit, path := q.fromEntry()
+			c.ob("C15-R7", jitPkg+".JITCompiler.recompileRoute#publish-only-if-still-cached-"+itoa(n), ins.Pos(), hit == nil && len(oks) > 0, "recompileRoute publishes the recompiled bytecode without checking that the route is still cached: an InvalidateCache that ran during the compile is undone and stale code is served", c.blockPath(path)...)
+		})
+		if n == 0 {
+			c.info("C15-R7", jitPkg+".JITCompiler.recompileRoute#no-publish", fn.Pos(), "recompileRoute does not write the cache")
+		}
+	}
+
 	// R5 advisory: cached byte slices handed out without copy
 	c.rule("C15-R5", "advisory (never a violation): exported functions of pkg/jit that return a []byte loaded from a cache entry without copying are listed")
 	for _, fn := range c.srcFuncs(jitPkg) {
